@@ -1050,7 +1050,6 @@ func VH_C01_derived_lines() {
 	zzverif.Reach("C01/derived-lines")
 }
 
-
 // The marshal func in force WHEN THE VALUE IS LOGGED renders values of unknown type (it is a
 // global the application may set at any time after package initialisation), once per value.
 func VH_C01_marshal_func() {
